@@ -84,12 +84,26 @@ func (fs *factSet) prove(goal Aff, extra map[string]bool) bool {
 }
 
 func factsBefore(sp *SymPath, at int) *factSet {
+	return factsFrom(sp, at, nil, false)
+}
+
+// factsForAccess: conditions of earlier events plus the earlier operands of the condition the access sits in.
+func factsForAccess(sp *SymPath, a SymAccess) *factSet {
+	return factsFrom(sp, a.At, a.Guards, true)
+}
+
+func factsFrom(sp *SymPath, at int, guards []SymCond, strict bool) *factSet {
 	fs := &factSet{}
 	var neqs []Aff
+	var conds []SymCond
 	for _, c := range sp.Conds {
-		if c.At > at || c.Other != "" {
+		if c.At > at || c.Other != "" || (strict && c.At == at) {
 			continue
 		}
+		conds = append(conds, c)
+	}
+	conds = append(conds, guards...)
+	for _, c := range conds {
 		d := c.R.Add(c.L, -1) // R - L
 		switch c.Op {
 		case token.LEQ:
@@ -211,7 +225,7 @@ func checkBoundsOnPaths(c *Ctx, p *GoProg, fnName string, sps []*SymPath, accs [
 			}
 			src := p.Str(a.Node)
 			site := fnName + ":" + src + ordinalOf(p, a.Node)
-			fs := factsBefore(sp, a.At)
+			fs := factsForAccess(sp, a)
 			var goals []struct {
 				g    Aff
 				what string
